@@ -189,6 +189,9 @@ def consumer(ctx):
                 bad = 'event callback %s' % [c[2][1:] for c in cb]
             elif len(cr) != 1 or cr[0][2][1:3] != [100, 0]:
                 bad = 'monitor re-armed with %s, required one-shot of the consumer time' % [c[2][1:3] for c in cr]
+            elif t.call_names().index('COTmrCreate') > t.call_names().index('CONmtHbConsEvent'):
+                bad = 'the application callback runs before the monitor is re-armed: a callback that re-configures this ' \
+                      'entry (back-up node, switch off) is overridden by the re-arm with the old settings'
             extra = set(d) - set(['Event', 'Tmr'])
             if extra:
                 bad = 'the timeout handler also writes %s: what the last received heartbeat recorded (state) must survive a ' \
